@@ -155,13 +155,25 @@ def glyph_picture(font, g):
 def check_pair(report, tag, fmt, tol, over, srcs):
     """-> False if a failure was reported"""
     case = dict(kind="e2e-pair", format=fmt, reuse_tolerance=tol, config={k: str(v) for k, v in over.items()}, sources=[s[1] for s in srcs])
-    try:
-        on_font, cfg, picos, _ = build.build_inprocess(over, srcs)
-        off_font, cfg_off, _, _ = build.build_inprocess(dict(over, reuse_tolerance=-1.0), srcs)
-    except Exception as ex:
-        case["error"] = f"{type(ex).__name__}: {ex}"
-        fid = "F18-empty-path-after-clip" if "look like a path" in str(ex) and any(clips_to_empty_path(s[1]) for s in srcs) else None
-        return not report_failure(report, f"pair_build_{tag}", case, fid)
+    outcomes = {}
+    for which, ov in (("on", over), ("off", dict(over, reuse_tolerance=-1.0))):
+        try:
+            outcomes[which] = build.build_inprocess(ov, srcs)
+        except Exception as ex:
+            outcomes[which] = ex
+    errs = {k: v for k, v in outcomes.items() if isinstance(v, Exception)}
+    if errs:
+        ex = next(iter(errs.values()))
+        case["error"] = {k: f"{type(v).__name__}: {v}" for k, v in errs.items()}
+        if len(errs) == 2 and fmt.endswith("_0") and all("already maps to" in str(v) and "can't also map to" in str(v) for v in errs.values()):
+            # COLRv0 keeps alpha in the palette: one palette variable met with two alphas is refused (C15/C17), with
+            # reuse on and off alike; not a pair this property speaks about
+            report.hist("pairs.outcome", "rejected: one palette variable with two alphas in COLRv0")
+            return True
+        f18 = len(errs) == 2 and ("look like a path" in str(ex) or isinstance(ex, ZeroDivisionError)) and any(clips_to_empty_path(s[1]) for s in srcs)
+        return not report_failure(report, f"pair_build_{tag}", case, "F18-empty-path-after-clip" if f18 else None)
+    on_font, cfg, picos, _ = outcomes["on"]
+    off_font, cfg_off, _, _ = outcomes["off"]
     report.hist("pairs.format", fmt)
     report.hist("pairs.tolerance", tol)
     reused = 0
